@@ -257,6 +257,9 @@ pub fn lengths() -> Vec<usize> {
     v
 }
 
+/// Lengths beyond 16-bit and 17-bit counters; visited with a reduced offset/scalar grid.
+pub const LONG_LENS: [usize; 5] = [65_535, 65_536, 65_537, 65_600, 131_073];
+
 const SPECIAL_LENS: [usize; 24] = [1, 7, 8, 9, 15, 16, 17, 31, 32, 33, 41, 63, 64, 65, 71, 72, 127, 128, 129, 191, 192, 193, 257, 320];
 
 fn signature(c: &Case, msg: &str) -> String {
@@ -274,14 +277,15 @@ fn signature(c: &Case, msg: &str) -> String {
 
 pub fn run(ctx: &Ctx, rep: &mut Report) {
     let ps = paths();
-    rep.rule = format!("enumerated grid: entry point in {:?} (every kernel the hook exposes that `supported()` reports on this CPU, plus the public dispatchers) x op in {{add, mul, fma, fma_binary}} x length in 0..=320 U {{511,512,513,1280,4099}} x destination start offset 0..=63 inside a 64-byte aligned arena (source offset derived independently) x scalars (quick: all 256 at offsets {{0,1,31,63}} for every length and at every 8th offset for 24 special lengths, {{0,1,2,0x1D,0x80,0xFF}} + 2 generated elsewhere; thorough: all 256 at every offset) x contents (random, 0x00, 0xFF, one-hot at each of the first/last three positions). The packed operand of fma_binary is built by the harness from the documented layout. Oracle: element-wise model with the polynomial multiplier + canaries around the destination and source. Non-trivial = length >= one vector width of the kernel with length mod width != 0 and scalar not in {{0,1}}; distinct by (path, op, len, offset, scalar, content).", ps.iter().map(|p| path_name(*p)).collect::<Vec<_>>());
+    rep.rule = format!("enumerated grid: entry point in {:?} (every kernel the hook exposes that `supported()` reports on this CPU, plus the public dispatchers) x op in {{add, mul, fma, fma_binary}} x length in 0..=320 U {{511,512,513,1280,4099}} (and 65535, 65536, 65537, 65600, 131073 with offsets {{0,1,63}} and 8 scalars) x destination start offset 0..=63 inside a 64-byte aligned arena (source offset derived independently) x scalars (quick: all 256 at offsets {{0,1,31,63}} for every length and at every 8th offset for 24 special lengths, {{0,1,2,0x1D,0x80,0xFF}} + 2 generated elsewhere; thorough: all 256 at every offset) x contents (random, 0x00, 0xFF, one-hot at each of the first/last three positions). The packed operand of fma_binary is built by the harness from the documented layout. Oracle: element-wise model with the polynomial multiplier + canaries around the destination and source. Non-trivial = length >= one vector width of the kernel with length mod width != 0 and scalar not in {{0,1}}; distinct by (path, op, len, offset, scalar, content).", ps.iter().map(|p| path_name(*p)).collect::<Vec<_>>());
     rep.exhaustive = ctx.tier == Tier::Thorough;
     rep.assumptions.push("NEON kernels cannot execute on this x86-64 host; they are not covered".into());
     if cfg!(debug_assertions) {
         rep.assumptions.push("chk build: the public dispatchers are not called with the scalars their debug assertions document as 'don't call' (0/1)".into());
     }
     let started = Instant::now();
-    let lens = lengths();
+    let mut lens = lengths();
+    lens.extend(LONG_LENS);
     let thorough = ctx.tier == Tier::Thorough;
     // work units: (path, op, len)
     let mut units = vec![];
@@ -301,9 +305,13 @@ pub fn run(ctx: &Ctx, rep: &mut Report) {
             let w = width(path, op);
             let mut rng = SplitMix::new(mix(mix(seed, 0xC11), ((len as u64) << 8) ^ (op as u64) ^ (fnv(&path_name(path)) << 20)));
             let special = SPECIAL_LENS.contains(&len);
+            let long = len > 5000;
             for d_off in 0..64usize {
+                if long && ![0usize, 1, 63].contains(&d_off) {
+                    continue;
+                }
                 let mut scalars: Vec<u8> = vec![0, 1, 2, 0x1D, 0x80, 0xFF, rng.next_u64() as u8, rng.next_u64() as u8];
-                let all_scalars = if thorough { true } else { [0usize, 1, 31, 63].contains(&d_off) || (special && d_off % 8 == 7) };
+                let all_scalars = if long { false } else if thorough { true } else { [0usize, 1, 31, 63].contains(&d_off) || (special && d_off % 8 == 7) };
                 if all_scalars {
                     scalars = (0..=255u8).collect();
                 }
@@ -311,7 +319,7 @@ pub fn run(ctx: &Ctx, rep: &mut Report) {
                     scalars = vec![1];
                 }
                 for (si, &scalar) in scalars.iter().enumerate() {
-                    let contents: Vec<u8> = if thorough || all_scalars && si < 8 {
+                    let contents: Vec<u8> = if !long && (thorough || all_scalars && si < 8) {
                         (0..9).collect()
                     } else {
                         vec![0, 1 + ((d_off + si) % 8) as u8]
